@@ -34,7 +34,7 @@ RUN_ACTIONS = ["StaticStep", "StepAsg", "StepAug", "StepIf", "StepForRange", "St
 LENIENT = {"global_options": {"error_on_uninitialized": False}}
 TIERS = {
     "quick": dict(random=40, inputs=4, arith_random=150, chunk=60, tlc_timeout=900),
-    "thorough": dict(random=1400, inputs=8, arith_random=3000, chunk=220, tlc_timeout=3000),
+    "thorough": dict(random=600, inputs=6, arith_random=3000, chunk=80, tlc_timeout=3000),
 }
 WORKERS = int(os.environ.get("VERIF_TLC_WORKERS", "0") or 0) or None
 JOBS = int(os.environ.get("VERIF_BUILD_JOBS", "0") or 0) or 8
@@ -158,6 +158,17 @@ def _vclass(e, g):
     if e[0] != g[0]:
         return "type_changed:%s->%s" % (TYN.get(e[0], e[0]), TYN.get(g[0], g[0]))
     return "wrong_value:" + TYN.get(e[0], e[0])
+
+
+def verdict(pobs, c_off, c_safe):
+    """the rule: inference is judged where the build without inference agrees with S = P"""
+    if c_off != pobs:
+        # not inference: the build without it already differs from Python (another property's business)
+        if c_safe == c_off or c_safe == pobs:
+            return "baseline_deviation"
+    if c_safe == pobs:
+        return "agree"
+    return "safe_deviates"
 
 
 # --------------------------------------------------------------------------- building
@@ -392,10 +403,10 @@ def run(tier, seed):
         st["programs"] += 1
         st["out_of_fragment"] += (not stc["frag"])
         st["mark_mismatch"] += (not stc["mark_ok"])
-        for v, verdict in (stc["span"] or {}).items():
-            st["span_" + verdict.split(":")[0]] += 1
-            if verdict.startswith("mismatch"):
-                notes.append("span %s %s %s: %s" % (p["fam"], v, verdict, p["src"].replace("\n", " ; ")[:400]))
+        for v, sv in (stc["span"] or {}).items():
+            st["span_" + sv.split(":")[0]] += 1
+            if sv.startswith("mismatch"):
+                notes.append("span %s %s %s: %s" % (p["fam"], v, sv, p["src"].replace("\n", " ; ")[:400]))
         if not stc["frag"] or not stc["mark_ok"]:
             notes.append("frag=%s mark_ok=%s marks=%s real=%s lmarks=%s real=%s %s: %s" % (stc["frag"], stc["mark_ok"], stc["marks"], p["mk"], stc["lmarks"], p["lmk"], p["fam"], p["src"].replace("\n", " ; ")[:400]))
         for k, inp in enumerate(p["inputs"]):
@@ -423,22 +434,16 @@ def run(tier, seed):
                       "types": {v: t for v, t in p["ty"].items() if t not in ("O", "I")}}
             if len(samples) < 12 and (hzs or rng.random() < 0.02):
                 samples.append({k2: detail[k2] for k2 in ("source", "call", "expected(S=P)", "safe", "hazards")})
-            if c_off != pobs:
-                st["baseline_deviation"] += 1            # not inference: both builds (or the build without it) differ from Python
-                if c_safe == c_off:
-                    continue
-                if c_safe == pobs:
-                    st["baseline_only_off"] += 1
-                    continue
-            if c_safe == pobs:
-                st["agree"] += 1
+            v = verdict(pobs, c_off, c_safe)
+            st[v] += 1
+            if v == "agree":
                 st["hazard_not_observable"] += bool(hzs)
-                if len(selftest_pool) < 40 and pobs[0] == "v":
-                    selftest_pool.append((pobs, c_safe))
+                if len(selftest_pool) < 60 and pobs[0] == "v":
+                    selftest_pool.append((pobs, c_off, c_safe))
+            if v != "safe_deviates":
                 continue
             oc = obs_class(pobs, c_safe)
             base = {"part": "run", "mark_ok": bool(stc["mark_ok"]), "in_fragment": bool(stc["frag"]), "facts": bool(p["facts"])}
-            st["safe_deviates"] += 1
             if not hzs:
                 rep.disagree(dict(base, hazard="none", cause="none"), oc, detail)
             for h, c in hzs:
@@ -446,7 +451,7 @@ def run(tier, seed):
 
     # binding demonstration: corrupted expectations must be rejected by the comparison
     bad_self = 0
-    for pobs, cs in selftest_pool:
+    for pobs, c_off, c_safe in selftest_pool:
         v = pobs[1]
         if v[0] == "i":
             corrupt = [("i", v[1] + 1), ("f", float(v[1]).hex() if abs(v[1]) < 2 ** 53 else "0x1p+0"), ("b", bool(v[1]))]
@@ -455,9 +460,10 @@ def run(tier, seed):
         else:
             corrupt = [("i", 1), ("s", "?")]
         for c in corrupt:
-            if c != v and ("v", c) == cs:
-                bad_self += 1
-            if c != v and obs_class(("v", c), cs) in ("", None):
+            if c == v:
+                continue
+            # a wrong observation of the safe build must be rejected, and a wrong expectation must not be accepted
+            if verdict(pobs, c_off, ("v", c)) != "safe_deviates" or verdict(("v", c), c_off, c_safe) == "agree":
                 bad_self += 1
     if selftest_pool and bad_self:
         core.die("binding self-test: %d corrupted expectations were accepted" % bad_self)
